@@ -102,6 +102,14 @@ def bytes_len(it, b):
         return K(b.n)
     if isinstance(b, Term) and b.op == 'bslice' and isinstance(b.a[1], K) and isinstance(b.a[2], K):
         return K(b.a[2].v - b.a[1].v)
+    if isinstance(b, Term) and b.op in ('aesctr', 'aesctr_garbage'):
+        return bytes_len(it, b.a[2])
+    if isinstance(b, Term) and b.op == 'reversed_bytes':
+        return bytes_len(it, b.a[0])
+    if isinstance(b, Term) and b.op == 'ed25519sig':
+        return K(64)
+    if isinstance(b, Term) and b.op in ('pub', 'sha512'):
+        return K(32 if b.op == 'pub' else 64)
     if isinstance(b, K) and isinstance(b.v, (bytes, bytearray, str)):
         return K(len(b.v))
     if isinstance(b, Sym) and b.meta.get('n') is not None:
